@@ -17,7 +17,8 @@ sys.path.insert(0, os.path.dirname(os.path.abspath(__file__)))
 from vlib import *
 
 PID = 'C03'
-THEOREMS = ['C03_switch_dispatch', 'C03_case_value_stored', 'C03_innermost_binding', 'C03_latest_declaration', 'C03_block_scope_restores', 'C03_name_spaces_separate', 'C03_nonvacuous']
+THEOREMS = ['C03_switch_dispatch', 'C03_case_value_stored', 'C03_innermost_binding', 'C03_latest_declaration', 'C03_block_scope_restores', 'C03_name_spaces_separate', 'C03_nonvacuous',
+            'C03_lowering_simulation', 'C03_lowered_program', 'C03_target_deterministic', 'C03_lowering_nonvacuous']
 MODELRUN = os.path.join(VERIF, 'ocaml/modelrun')
 
 CTYPES = [('signed char', 8, True), ('unsigned char', 8, False), ('short', 16, True), ('unsigned short', 16, False), ('int', 32, True), ('unsigned int', 32, False),
@@ -204,6 +205,83 @@ class ScopeGen:
         return '\n'.join(out) + '\n', list(self.exp)
 
 
+class LowerGen:
+    """structured statements of Model/Lowering.v: (prefix form for the model, C text)"""
+    def __init__(self, rng): self.rng = rng; self.m = 0
+    def mk(self): self.m += 1; return self.m
+    def simple(self):
+        if self.rng.random() < 0.3: return 'K', ''
+        n = self.mk(); return 'M %d' % n, 'M(%d)' % n
+    def stmt(self, depth, in_loop):
+        rng = self.rng; r = rng.random()
+        if depth <= 0 or r < 0.2:
+            if in_loop and rng.random() < 0.35: return rng.choice([('B', 'break;'), ('C', 'continue;')])
+            if rng.random() < 0.15: return 'K', ';'
+            n = self.mk(); return 'M %d' % n, 'M(%d);' % n
+        if r < 0.4:
+            a, ca = self.stmt(depth - 1, in_loop); b, cb = self.stmt(depth - 1, in_loop)
+            return 'S %s %s' % (a, b), '{ %s %s }' % (ca, cb)
+        if r < 0.6:
+            k = self.mk(); a, ca = self.stmt(depth - 1, in_loop)
+            if rng.random() < 0.3: return 'I %d %s K' % (k, a), 'if (E(%d)) { %s }' % (k, ca)
+            b, cb = self.stmt(depth - 1, in_loop)
+            return 'I %d %s %s' % (k, a, b), 'if (E(%d)) { %s } else { %s }' % (k, ca, cb)
+        if r < 0.8:
+            if rng.random() < 0.35:
+                k = self.mk(); b, cb = self.stmt(depth - 1, True)
+                return 'F K %d K %s' % (k, b), 'while (E(%d)) %s' % (k, cb)
+            i, ci = self.simple(); inc, cinc = self.simple()
+            if rng.random() < 0.25:
+                k = self.mk(); b, cb = self.stmt(depth - 1, True)        # no condition: every iteration starts with a guarded break
+                return 'F %s - %s S I %d B K %s' % (i, inc, k, b), 'for (%s; ; %s) { if (E(%d)) break; %s }' % (ci, cinc, k, cb)
+            k = self.mk(); b, cb = self.stmt(depth - 1, True)
+            return 'F %s %d %s %s' % (i, k, inc, b), 'for (%s; E(%d); %s) %s' % (ci, k, cinc, cb)
+        b, cb = self.stmt(depth - 1, True); k = self.mk()
+        return 'D %s %d' % (b, k), 'do %s while (E(%d));' % (cb, k)
+
+def parse_lowered(asm, fn):
+    """abstract the text chibicc emitted for fn: calls of M/E with their immediate argument, conditional and unconditional jumps, labels as positions"""
+    lines = asm.split('\n'); out = []; labels = {}; on = False; imm = None; pushed = None; callee = None; pending = None
+    for l in lines:
+        t = l.strip()
+        if t == fn + ':': on = True; continue
+        if not on: continue
+        if t == '.L.return.%s:' % fn: labels[t[:-1]] = len(out) + (1 if pending else 0); break
+        if t.startswith('.loc') or not t: continue
+        def flush():
+            nonlocal pending
+            if pending is not None: out.append(('M', pending)); pending = None
+        if t.endswith(':'): flush(); labels[t[:-1]] = len(out); continue
+        m = re.fullmatch(r'mov \$(-?\d+), %rax', t)
+        if m: imm = int(m.group(1)); continue
+        if t == 'push %rax': pushed = imm; continue
+        m = re.fullmatch(r'mov (\w+)@GOTPCREL\(%rip\), %rax|lea (\w+)\(%rip\), %rax', t)
+        if m: callee = m.group(1) or m.group(2); continue
+        if t.startswith('call'):
+            flush()
+            if callee == 'M': out.append(('M', pushed))
+            elif callee == 'E': pending = pushed
+            else: out.append(('?', t))
+            continue
+        m = re.fullmatch(r'(je|jne|jmp)\s+(\S+)', t)
+        if m:
+            op, lab = m.groups()
+            if op == 'jmp': flush(); out.append(('J', lab))
+            else:
+                if pending is None: out.append(('?', t))
+                else: out.append(('F' if op == 'je' else 'T', pending, lab)); pending = None
+            continue
+        if t.split()[0] in ('push', 'pop', 'mov', 'sub', 'add', 'cmp', 'movzb', 'movsxd', 'lea'): continue
+        out.append(('?', t))
+    res = []
+    for x in out:
+        if x[0] == 'M': res.append('M%d' % x[1])
+        elif x[0] == 'J': res.append('J%s' % labels.get(x[1], x[1]))
+        elif x[0] in 'FT': res.append('%s%d:%s' % (x[0], x[1], labels.get(x[2], x[2])))
+        else: res.append('?' + x[1])
+    return res
+
+
 def main():
     run = Run(PID, THEOREMS)
     rng = run.rng
@@ -213,7 +291,7 @@ def main():
         run.proof_broken.append('scratch build of /repo failed: ' + str(e)[-800:])
         return run.finish(dict(evaluations=0), [], [])
     wd = scratch_dir()
-    run.check_proofs(deps=['theories/Model/Control.vo', 'theories/Proofs/ControlProofs.vo'])
+    run.check_proofs(deps=['theories/Model/Control.vo', 'theories/Proofs/ControlProofs.vo', 'theories/Model/Lowering.vo', 'theories/Proofs/LoweringProofs.vo'])
     rc, o, e = sh([os.path.join(VERIF, 'ocaml/build.sh')], timeout=900)
     if rc != 0:
         run.corr_broken.append('extracted model does not build: ' + (o + e)[-300:])
@@ -303,14 +381,52 @@ def main():
             run.violation(dict(kind='identifier-binding', program=open(f).read(), chibicc=got if got is not None else w1, expected=ref,
                                how='every P(...) prints the value / sizeof of the declaration the identifier is bound to'), dict(area='scope', construct='binding'))
 
+
+    # ---------------- (d) lowering of structured statements to jumps ----------------
+    ND = 150 if run.quick() else 1500
+    lcases = []
+    for k in range(ND):
+        g = LowerGen(rng); pre, ctext = g.stmt(rng.randint(1, 5), False)
+        bits = ''.join('1' if rng.random() < rng.choice([0.3, 0.5, 0.7]) else '0' for _ in range(300))
+        lcases.append((k, pre, ctext, bits))
+    rc, mo, me = sh([MODELRUN, 'lower'], input='\n'.join('%s %s' % (b, p) for _, p, _, b in lcases) + '\n', timeout=300)
+    mo = mo.split('\n')
+    if rc != 0 or len(mo) < len(lcases): run.corr_broken.append('extracted lowering model failed: ' + me[-200:]); lcases = []
+    def one_d(c):
+        k, pre, ctext, bits = c
+        f1 = os.path.join(wd, 'lw%d.c' % k)
+        open(f1, 'w').write('void M(int); int E(int);\nvoid f(void) { %s }\n' % ctext)
+        f2 = os.path.join(wd, 'lwm%d.c' % k)
+        open(f2, 'w').write('int printf(const char *, ...); void exit(int);\nstatic const char *bits = "%s"; static int pos;\nvoid M(int k) { printf("%%d ", k); }\nint E(int k) { if (!bits[pos]) { printf("X\\n"); exit(0); } printf("%%d ", k); return bits[pos++] == \'1\'; }\nvoid f(void);\nint main(void) { f(); printf("\\n"); return 0; }\n' % bits)
+        rc, asm, e = sh([chibi, '-S', '-o', '-', f1], timeout=60)
+        if rc != 0: return c, None, 'compile: ' + e[-300:], None
+        rc2, o2, e2 = sh([chibi, '-o', f1 + '.exe', f1, f2], timeout=60)
+        tr = None
+        if rc2 == 0:
+            rc3, o3, e3 = sh([f1 + '.exe'], timeout=20); tr = o3 if rc3 == 0 else 'exit %d' % rc3
+        return c, parse_lowered(asm, 'f'), None, tr
+    for (k, pre, ctext, bits), code, why, tr in pmap(one_d, lcases):
+        evals += 1
+        mcode, mtrace = [x.strip() for x in mo[k].split('|')]
+        if code is None:
+            run.violation(dict(kind='valid-program-rejected', why=why, program=ctext), dict(area='lowering', construct='rejected')); continue
+        nontriv += 1; count('lowered-statement'); count('lowered-trace-' + ('complete' if mtrace != 'NONE' else 'oracle-exhausted'))
+        if ' '.join(code) != mcode:
+            run.corr_broken.append('jump code emitted for "%s": model [%s], chibicc [%s]' % (ctext[:200], mcode, ' '.join(code))); write_replay(PID, 'lower_%d.c' % k, 'void M(int); int E(int);\nvoid f(void) { %s }\n' % ctext)
+        if mtrace not in ('NONE', 'STRAY') and (tr or '').split() != mtrace.split():
+            # the structured semantics of the model is C's: a differing run is a wrong execution
+            run.violation(dict(kind='execution-trace', program='void f(void) { %s }' % ctext, condition_outcomes=bits[:60], chibicc=(tr or '')[:400], c11=mtrace[:400],
+                               how='E(k) prints k and returns the next listed outcome; M(k) prints k'), dict(area='trace', construct='lowering'))
+        elif len(samples) < 3: samples.append(dict(statement=ctext[:200], jump_code=mcode[:200], trace=mtrace[:80]))
+
     cov = dict(evaluations=evals, distinct_nontrivial=nontriv, input_distribution=dist, samples=samples,
-               rule='(a) %d switch statements over 10 controlling types with 1-7 disjoint cases (values at every width boundary, negative, beyond 32 bits, ranges up to 2^33 wide), default at any position, probed at every case boundary +-1: case entered = extracted dispatch model = C11 selection computed independently; (b) %d generated programs of 1-3 functions nesting if/else, for/while/do with break/continue, switch with fall-through and default anywhere (also inside loops), forward and backward goto, computed goto, && || ?: comma and statement expressions with side-effecting operands, run three times over persistent counters: marker trace = gcc; (c) %d shadowing programs (int objects, static objects, typedef names, enumerators, struct/union tags, for-init and parameter scope, labels) nested to depth 3: printed bindings = generator = gcc' % (NA * 10, NB, NCs),
+               rule='(a) %d switch statements over 10 controlling types with 1-7 disjoint cases (values at every width boundary, negative, beyond 32 bits, ranges up to 2^33 wide), default at any position, probed at every case boundary +-1: case entered = extracted dispatch model = C11 selection computed independently; (b) %d generated programs of 1-3 functions nesting if/else, for/while/do with break/continue, switch with fall-through and default anywhere (also inside loops), forward and backward goto, computed goto, && || ?: comma and statement expressions with side-effecting operands, run three times over persistent counters: marker trace = gcc; (c) %d shadowing programs (int objects, static objects, typedef names, enumerators, struct/union tags, for-init and parameter scope, labels) nested to depth 3: printed bindings = generator = gcc; (d) %d statements nesting if/else, for (with and without condition, init, increment), while, do, break, continue to depth 5: the jump code in chibicc -S (calls, je/jne/jmp, labels resolved to positions) = extracted lgen, and the run on 300 fixed condition outcomes = extracted lexec' % (NA * 10, NB, NCs, ND),
                traces_validated_against_impl=nontriv)
     return run.finish(cov,
         ['gcc 12 -O0 is the reference for execution traces and bindings; generated programs have no unspecified evaluation order between markers',
          'a switch on a type narrower than int is compared after promotion to int (C11 6.8.4.2p5)'],
         ['Coq 8.16.1 kernel, no axioms', 'hand-written Model/Control.v (dispatch chain of gen_stmt(ND_SWITCH) with the case values as parse.c stores them; scope stack of parse.c) tied by (a) and (c)',
-         'the lowering of loops, goto and short-circuit operators to labels and jumps is NOT modelled: it is covered by the trace differential (b) only; label uniqueness (count()) is observed, not proved'])
+         'hand-written Model/Lowering.v (gen_stmt for if / for / while / do / break / continue as absolute-position jump code; oracle-driven structured semantics) tied by (d): emitted jump code compared instruction by instruction, runs compared on fixed outcomes', 'switch fall-through, goto, computed goto and the short-circuit operators are NOT in the lowering model: they are covered by the trace differential (b) only; label uniqueness (count()) is observed through (d), not proved'])
 
 if __name__ == '__main__':
     sys.exit(main())
